@@ -257,6 +257,173 @@ pub fn check_consts(rep: &mut Rep) {
     }
 }
 
+/// "Every duration value has exactly one observable (centuries, nanoseconds) form": every public operation that *returns*
+/// a duration - or an epoch, whose `duration` field is public - must leave a canonical pair behind, whatever else it
+/// computes (the value is judged by the property that owns the operation; only the form is judged here). A result in
+/// the form (c, one century) has the right count and is still a different observable value: it prints, compares,
+/// hashes and serializes differently from (c + 1, 0).
+pub fn check_producers(rep: &mut Rep, c: i128, o: i128, s: hifitime::TimeScale, q: i64, x: f64) {
+    use hifitime::{Epoch, TimeScale};
+    if !rep.tick() {
+        return;
+    }
+    rep.class("producers");
+    let (c, o) = (clamp(c), clamp(o));
+    if c % NPC == 0 || (c + o) % NPC == 0 || (c - o) % NPC == 0 {
+        rep.class("producers/whole-century-in-reach");
+    }
+    rep.nt(h64(&[99, c as u64, (c >> 64) as u64, o as u64, q as u64]));
+    let (d, e) = (mk(c), mk(o));
+    let r = guard(|| {
+        let mut v: Vec<(&'static str, Duration)> = vec![];
+        v.push(("a + b", d + e));
+        v.push(("a - b", d - e));
+        v.push(("-a", -d));
+        v.push(("a.abs()", d.abs()));
+        v.push(("a * q", d * q));
+        v.push(("q * a", q * d));
+        if q != 0 {
+            v.push(("a / q", d / q));
+        }
+        let mut t = d;
+        t += e;
+        v.push(("a += b", t));
+        let mut t = d;
+        t -= e;
+        v.push(("a -= b", t));
+        for u in UNITS {
+            v.push(("a + Unit", d + u));
+            v.push(("a - Unit", d - u));
+            let mut t = d;
+            t += u;
+            v.push(("a += Unit", t));
+            let mut t = d;
+            t -= u;
+            v.push(("a -= Unit", t));
+            v.push(("q * Unit", q * u));
+            v.push(("Unit * q", u * q));
+            if x.is_finite() {
+                v.push(("x * Unit", x * u));
+                v.push(("Unit * x", u * x));
+            }
+        }
+        v.push(("a.min(b)", d.min(e)));
+        v.push(("a.max(b)", d.max(e)));
+        if o != 0 {
+            v.push(("a.floor(b)", d.floor(e)));
+            v.push(("a.ceil(b)", d.ceil(e)));
+            v.push(("a.round(b)", d.round(e)));
+        }
+        v.push(("a.approx()", d.approx()));
+        if x.is_finite() && c.abs() <= 100 * NPC {
+            v.push(("a * x", d * x));
+            v.push(("x * a", x * d));
+        }
+        if x.is_finite() {
+            v.push(("from_seconds(x)", Duration::from_seconds(x)));
+            v.push(("from_days(x)", Duration::from_days(x)));
+            v.push(("x.seconds()", x.seconds()));
+            v.push(("x.centuries()", x.centuries()));
+        }
+        v.push(("q.seconds()", q.seconds()));
+        v.push(("q.days()", q.days()));
+        v.push(("q.centuries()", q.centuries()));
+        v.push(("from_total_nanoseconds", Duration::from_total_nanoseconds(c + o)));
+        v.push(("from_truncated_nanoseconds", Duration::from_truncated_nanoseconds(q)));
+        if let Ok(p) = <Duration as std::str::FromStr>::from_str(&format!("{}", d)) {
+            v.push(("from_str(Display)", p));
+        }
+        if let Ok(j) = serde_json::to_string(&d) {
+            if let Ok(p) = serde_json::from_str::<Duration>(&j) {
+                v.push(("serde round trip", p));
+            }
+        }
+        if c >= 0 {
+            let sd: std::time::Duration = d.into();
+            v.push(("std round trip", Duration::from(sd)));
+        }
+        // epochs: the public `duration` field after every operation, and every duration-valued view (kept a day inside the
+        // bounds so that no conversion saturates; saturation is judged by the owners of the conversions)
+        let lim = 32_000 * NPC;
+        if c.abs() < lim && o.abs() < lim && (c + o).abs() < lim && (c - o).abs() < lim {
+            let ep = Epoch::from_duration(d, s);
+            let dynamical = matches!(s, TimeScale::ET | TimeScale::TDB);
+            v.push(("Epoch::from_duration", ep.duration));
+            v.push(("(e + d).duration", (ep + e).duration));
+            v.push(("(e - d).duration", (ep - e).duration));
+            let mut t = ep;
+            t += e;
+            v.push(("(e += d).duration", t.duration));
+            let mut t = ep;
+            t -= e;
+            v.push(("(e -= d).duration", t.duration));
+            v.push(("(e + Unit::Century).duration", (ep + Unit::Century).duration));
+            v.push(("(e - Unit::Century).duration", (ep - Unit::Century).duration));
+            v.push(("(e + Unit::Day).duration", (ep + Unit::Day).duration));
+            v.push(("e - f", (ep + e) - ep));
+            v.push(("e - f (reversed)", ep - (ep + e)));
+            if o != 0 && !dynamical {
+                v.push(("e.floor(b).duration", ep.floor(e).duration));
+                v.push(("e.ceil(b).duration", ep.ceil(e).duration));
+                v.push(("e.round(b).duration", ep.round(e).duration));
+            }
+            if c.abs() < 101 * NPC {
+                for s2 in crate::model::scale::SCALES {
+                    v.push(("to_time_scale(s2).duration", ep.to_time_scale(s2).duration));
+                    v.push(("to_duration_in_time_scale(s2)", ep.to_duration_in_time_scale(s2)));
+                }
+                v.push(("to_tai_duration", ep.to_tai_duration()));
+                v.push(("to_utc_duration", ep.to_utc_duration()));
+                v.push(("to_tt_duration", ep.to_tt_duration()));
+                v.push(("to_gpst_duration", ep.to_gpst_duration()));
+                v.push(("to_qzsst_duration", ep.to_qzsst_duration()));
+                v.push(("to_gst_duration", ep.to_gst_duration()));
+                v.push(("to_bdt_duration", ep.to_bdt_duration()));
+                v.push(("to_et_duration", ep.to_et_duration()));
+                v.push(("to_tdb_duration", ep.to_tdb_duration()));
+                v.push(("to_jde_tai_duration", ep.to_jde_tai_duration()));
+                v.push(("to_jde_utc_duration", ep.to_jde_utc_duration()));
+                v.push(("to_jde_tt_duration", ep.to_jde_tt_duration()));
+                v.push(("to_mjd_tt_duration", ep.to_mjd_tt_duration()));
+                v.push(("to_jde_et_duration", ep.to_jde_et_duration()));
+                v.push(("to_jde_tdb_duration", ep.to_jde_tdb_duration()));
+                v.push(("to_tt_since_j2k", ep.to_tt_since_j2k()));
+                v.push(("to_duration_since_j1900", ep.to_duration_since_j1900()));
+                v.push(("duration_in_year", ep.duration_in_year()));
+                v.push(("from_tai_duration", Epoch::from_tai_duration(d).duration));
+                v.push(("from_utc_duration", Epoch::from_utc_duration(d).duration));
+                v.push(("from_gpst_duration", Epoch::from_gpst_duration(d).duration));
+                v.push(("from_unix_duration", Epoch::from_unix_duration(d).duration));
+                v.push(("from_mjd_tai(days)", Epoch::from_mjd_tai((c / NS_D) as f64).duration));
+                v.push(("from_jde_tai(days)", Epoch::from_jde_tai(2_415_020.5 + (c / NS_D) as f64).duration));
+                if let Ok(p) = <Epoch as std::str::FromStr>::from_str(&format!("{}", ep)) {
+                    v.push(("Epoch::from_str(Display).duration", p.duration));
+                }
+                let (y, m, dd, hh, mi, ss, ns) = ep.to_gregorian_utc();
+                if let Ok(p) = Epoch::maybe_from_gregorian(y, m, dd, hh, mi, ss, ns, s) {
+                    v.push(("from_gregorian(fields).duration", p.duration));
+                }
+                if c >= 0 {
+                    let (wk, tow) = ep.to_time_of_week();
+                    v.push(("from_time_of_week.duration", Epoch::from_time_of_week(wk, tow, s).duration));
+                }
+            }
+        }
+        v
+    });
+    match r {
+        Err(p) => rep.fail(&format!("producers/panic/{}", p.class()), None, || format!("operations on count {} (other {}, scale {:?}, q {}, x {}) panicked: {} at {}", c, o, s, q, fmt_f64(x), p.msg, p.loc)),
+        Ok(v) => {
+            for (name, got) in v {
+                let parts = got.to_parts();
+                if !is_canonical(parts) {
+                    rep.fail(&format!("producers/noncanonical/{name}"), None, || format!("{name} with a = {} (count {c}), b = {} (count {o}), scale {:?}, q = {q}, x = {} left the non-canonical pair {}", fmt_parts(canon(c)), fmt_parts(canon(o)), s, fmt_f64(x), fmt_parts(parts)));
+                }
+            }
+        }
+    }
+}
+
 pub fn run(cfg: &Cfg, rep: &mut Rep) {
     let lat = gen::dur_lattice();
     if rep.shard == 0 {
@@ -300,6 +467,74 @@ pub fn run(cfg: &Cfg, rep: &mut Rep) {
             }
         }
     }
+    // aliasing: counts whose number of whole centuries is an ordinary small number modulo 2^15 / 2^16 / 2^31 / 2^32 / 2^63 / 2^64
+    // (what a narrowing cast of the quotient keeps), integer unit counts and fields that alias a small value modulo 2^32
+    for w in [15u32, 16, 31, 32, 63, 64] {
+        if cfg.fuzz {
+            break;
+        }
+        for k in [1i128, -1, 2, -2, 3, -3] {
+            for c in [-32768i128, -32767, -2, -1, 0, 1, 5, 32766, 32767] {
+                for ns in [0i128, 1, 17, NPC - 1] {
+                    if let Some(v) = (k << w).checked_add(c).and_then(|q| q.checked_mul(NPC)).and_then(|x| x.checked_add(ns)) {
+                        if mine() {
+                            rep.class("total/century-number-aliases");
+                            check_total(rep, v);
+                        }
+                    }
+                }
+            }
+        }
+    }
+    for w in [8u32, 16, 31, 32, 33, 48] {
+        if cfg.fuzz {
+            break;
+        }
+        for k in [1i64, -1, 2, -3] {
+            for x in [0i64, 1, -1, 5, 1000, 86_400] {
+                let n = (k << w) + x;
+                if mine() {
+                    rep.class("i64/aliases-small-value");
+                    check_i64(rep, n);
+                    for u in UNITS {
+                        check_unit(rep, n, u);
+                    }
+                    if n > 0 {
+                        check_std(rep, n as u64, (x.unsigned_abs() % 1_000_000_000) as u32);
+                        let mut f = [0u64; 7];
+                        f[(w as usize + x.unsigned_abs() as usize) % 7] = n as u64;
+                        check_compose(rep, if k % 2 == 0 { -1 } else { 1 }, f);
+                    }
+                }
+            }
+        }
+    }
+    // every producer on whole centuries and their neighbours (the landings where a carry has to happen)
+    for k in -40i128..=40 {
+        if cfg.fuzz {
+            break;
+        }
+        for dlt in [0i128, 1, -1] {
+            for (j, o) in [0i128, 1, NPC, -NPC, NS_D, k * NPC, -k * NPC, NPC - 1, NS_S].into_iter().enumerate() {
+                if mine() {
+                    let s = crate::model::scale::SCALES[(k + 40 + j as i128) as usize % 9];
+                    check_producers(rep, k * NPC + dlt, o, s, [1i64, -1, 2, 100, 36525][j % 5], [1.0, -1.0, 0.5, 100.0, 36525.0][j % 5]);
+                }
+            }
+        }
+    }
+    for &b in &[MAX_NS, MIN_NS, MAX_NS - NPC, MIN_NS + NPC, 32_767 * NPC, -32_767 * NPC] {
+        if cfg.fuzz {
+            break;
+        }
+        for dlt in [0i128, 1, -1] {
+            for o in [0i128, 1, -1, NPC, -NPC, 2 * NPC, b, -b] {
+                if mine() {
+                    check_producers(rep, b + dlt, o, hifitime::TimeScale::TAI, -1, 1.0);
+                }
+            }
+        }
+    }
     for u in UNITS {
         if cfg.fuzz {
             break;
@@ -337,7 +572,13 @@ pub fn run(cfg: &Cfg, rep: &mut Rep) {
                 check_parts(rep, c, ns);
             }
             2 => {
-                let v = match r.below(4) {
+                let v = match r.below(5) {
+                    4 => {
+                        // century number aliasing a representable one modulo a power of two
+                        let w = *r.pick(&[15u32, 16, 31, 32, 63, 64]);
+                        let k = r.range_i64(-3, 3) as i128;
+                        (k << w).checked_add(r.range_i64(-32768, 32767) as i128).and_then(|q| q.checked_mul(NPC)).map(|x| x.saturating_add(r.below(NPC as u64) as i128)).unwrap_or(i128::MAX)
+                    }
                     0 => ((r.u64() as u128) << 64 | r.u64() as u128) as i128,
                     1 => gen::rand_count(&mut r, &lat) + *r.pick(&[0, MAX_NS, -MAX_NS]),
                     _ => gen::rand_count(&mut r, &lat),
@@ -421,6 +662,26 @@ pub fn run(cfg: &Cfg, rep: &mut Rep) {
                 }
             }
             _ => {
+                if r.chance(1, 4) {
+                    let c = gen::rand_count(&mut r, &lat);
+                    let o = match r.below(6) {
+                        0 => gen::rand_count(&mut r, &lat),
+                        1 => r.range_i64(-40, 40) as i128 * NPC - c,
+                        2 => c - r.range_i64(-40, 40) as i128 * NPC,
+                        3 => *r.pick(&[NPC, -NPC, 1, -1, NS_D, NS_S, 0]),
+                        4 => -c,
+                        _ => gen::rand_count_within(&mut r, 3 * NPC),
+                    };
+                    let q = super::c01::rand_factor(&mut r, &[0, 1, -1, 2, -2, 100]);
+                    let x = match r.below(4) {
+                        0 => q as f64,
+                        1 => (c / NS_S) as f64,
+                        2 => r.range_i64(-40, 40) as f64 * 100.0,
+                        _ => (r.f64_unit() - 0.5) * 1e6,
+                    };
+                    check_producers(rep, c, o, gen::rand_scale(&mut r), q, x);
+                    continue;
+                }
                 if r.chance(1, 3) {
                     // the seconds / sub-second split of every binary boundary a 64-bit shortcut could trip on
                     // (2^63, 2^64 nanoseconds; one / two centuries; the maximum duration; 2^32, 2^63, 2^64 seconds)
